@@ -22,12 +22,13 @@ ASSUMPTIONS = ['default warning filters (under -W error the DeprecationWarning o
                'world.testing/log.testing off']
 LEVEL_TEXT = ('Coq theorems over an executable Gallina model of shlex.read_token (character machine), callbacks.Tokenizer/_handleToken/_insideBrackets/tokenize, '
               'CPython unicode_escape decode/encode, strict UTF-8 and Latin-1: totality (only SyntaxError escapes, for every string incl. lone surrogates, every '
-              'configuration, every name table), UTF-8 round trip, minimal-quote round trip for every list of scalar-value strings at top level and inside n levels of nested-command brackets, and the dqrepr law refuted by a '
-              'witness outside a decidable domain (finding F15); tied to the source by regenerated tables (separators, whitespace, bracket/quote sets, except clause, codec chain) '
-              'and a differential run against the real tokenizer and codecs on every check.  Partial: the dqrepr law is proved only for printable-ASCII arguments (the rest of dq_dom is explored, not proved); '
-              'the bracket-nesting clause is proved for the token stream of any tree (no depth bound), the lexing of the rendered text is explored, not proved.')
+              'configuration, every name table); UTF-8 round trip; minimal-quote round trip for every list of scalar-value strings, at top level and inside n levels of '
+              'nested-command brackets; utils.str.dqrepr -> tokenize is the identity on every list of strings over all code points, at top level and inside n levels of brackets (full statement, after the repair of C13.F15); '
+              'the text of every tree of bare words (any depth) tokenises to exactly that tree, unbalanced brackets give SyntaxError, and with nesting off brackets are literal.  Tied to the source by regenerated tables '
+              '(separators, whitespace, bracket/quote sets, except clause, codec chain and the nonAscii guard of _handleToken) and a differential run against the real tokenizer and codecs on every check.')
 LEVEL_NOTE = ('Trusted: Coq kernel, gen_tables.py, extraction + OCaml driver, the Python harness, CPython codecs (modelled, differentially tested). '
-              'Python code is modelled, not verified.  See the theorem list for which clauses are proved and which are partial.')
+              'Python code is modelled, not verified.  Not proved, explored only: escape spellings other than minimal quoting and dqrepr (\\xHH, octal, \\uHHHH of ASCII text); quoted '
+              'arguments inside nested commands mixed with bare command words; renderings with other spacing than one space.')
 TECHNIQUE = 'Coq proof (induction over strings/token lists, invariants of the lexer machine) + regenerated tables + extracted-model differential correspondence'
 EXPLANATION = 'C13: tokenizer model of src/shlex.py + src/callbacks.py Tokenizer + codecs; theorems in coq/C13/Props.v'
 
@@ -166,7 +167,7 @@ def mquote(a):
 
 
 def latin1_utf8(a):
-    """class predicate of finding F15: non-ASCII, every code point < 256, and those code points are a valid UTF-8 byte string"""
+    """the class of the repaired finding C13.F15 (kept to cross-check the model predicate dq_dom): non-ASCII, every code point < 256, and those code points are a valid UTF-8 byte string"""
     if not a or all(ord(c) < 128 for c in a) or any(ord(c) > 255 for c in a):
         return False
     try:
@@ -289,6 +290,10 @@ def check_tree(ctx, inp):
         l, r = e['brackets'][0], e['brackets'][1]
         text = ' '.join(render(x, l + ' ' if inp.get('spaced') else l, ' ' + r if inp.get('spaced') else r) for x in tr)
         want = ('ok', tr)
+        if inp.get('unbalanced') == 'unclosed':      # an opening bracket that is never closed: an error, not a tree
+            text, want = text + ' ' + l + ' ' + text, ('raise', 'SyntaxError')
+        elif inp.get('unbalanced') == 'spurious':    # a closing bracket that closes nothing, then anything
+            text, want = text + ' ' + r + ' x "', ('raise', 'SyntaxError')
     else:
         text = ' '.join(render(x, '[', ']') for x in tr)
         want = ('ok', [['L', w] for w in text.split(' ') if w])
@@ -446,6 +451,8 @@ def run(ctx):
     for _ in range(ctx.n(1500)):
         c = rand_cfg(rng)
         inp = {'op': 'tree', 'cfg': c, 'tree': rand_tree(rng, rng.choice([1, 2, 3, 5]), c), 'spaced': rng.random() < 0.3}
+        if rng.random() < 0.25:
+            inp['unbalanced'] = rng.choice(['unclosed', 'spurious'])
         treecases.append(inp)
     deep = {'op': 'tree', 'cfg': default, 'tree': [['L', 'a']], 'spaced': False}
     for _ in range(200):
@@ -549,7 +556,7 @@ def replay(ctx, inp):
     return sub.failures[0]['detail'] if sub.failures else None
 
 
-CLASSES = {'dqrepr_latin1_utf8': lambda inp: inp.get('op') in ('args', 'nested') and inp.get('style') == 'dqrepr' and any(latin1_utf8(a) for a in inp['args'])}
+CLASSES = {}     # C13.F15 (dqrepr of Latin-1 text that is valid UTF-8) is repaired: nothing is attributed to it any more
 
 
 def shrink(ctx, inp):
